@@ -385,6 +385,45 @@ theorem infer_nfrac_given (sg : Bool) (vals : List ℚ) (fq : ℕ) (w f : ℤ)
     · left; exact hz
     · right; exact hminbits (fq + nintN - 1) (by omega)
 
+/-- for a negative given fraction length the scaled extreme is `int(v / 2^k)` (toward zero). -/
+theorem scaledExt_neg (k : ℕ) (hk : 1 ≤ k) (v : ℚ) : scaledExt (-(k : ℤ)) v = truncInt (v / ((2 ^ k : ℕ) : ℚ)) := by
+  unfold scaledExt
+  rw [if_neg (by omega)]
+  simp
+
+/-- **only a negative `n_frac` given** (D49: the pinned tree raised `ValueError` here): the fraction length is kept and the word is the
+fewest bits (plus the sign bit) that hold the truncated extremes `int(v / 2^k)` — "if only n_frac is given the word is minimal". -/
+theorem infer_nfrac_given_neg (sg : Bool) (vals : List ℚ) (k : ℕ) (hk : 1 ≤ k) (w f : ℤ)
+    (hb : bestSizes sg vals none (some (-(k : ℤ))) = (w, f)) (hcap : w < 64) :
+    ∃ bits : ℕ, f = -(k : ℤ) ∧ w = (bits : ℤ) + (if sg then 1 else 0) ∧
+      Chk.fitsBits (truncInt (listMaxR vals / ((2 ^ k : ℕ) : ℚ))) bits = true ∧
+      Chk.fitsBits (truncInt (listMinR vals / ((2 ^ k : ℕ) : ℚ))) bits = true ∧
+      (bits = 0 ∨ ¬ (Chk.fitsBits (truncInt (listMaxR vals / ((2 ^ k : ℕ) : ℚ))) (bits - 1) = true ∧
+                     Chk.fitsBits (truncInt (listMinR vals / ((2 ^ k : ℕ) : ℚ))) (bits - 1) = true)) := by
+  set sign : ℕ := if sg then 1 else 0 with hsign
+  set kM := truncInt (listMaxR vals / ((2 ^ k : ℕ) : ℚ)) with hkM
+  set km := truncInt (listMinR vals / ((2 ^ k : ℕ) : ℚ)) with hkm
+  set bits := intLoop (kM.natAbs + km.natAbs + 2) kM km 0 with hbits
+  obtain ⟨⟨fM, fm⟩, hminbits⟩ := intBits_min kM km
+  have hbs : bestSizes sg vals none (some (-(k : ℤ))) =
+      (min (min ((nWordMax : ℤ) - sign - max ((bits : ℤ) - -(k : ℤ)) 0) (-(k : ℤ)) + max ((bits : ℤ) - -(k : ℤ)) 0 + sign) nWordMax,
+       min ((nWordMax : ℤ) - sign - max ((bits : ℤ) - -(k : ℤ)) 0) (-(k : ℤ))) := by
+    unfold bestSizes
+    simp only [scaledExt_neg k hk, ← hsign, ← hkM, ← hkm, ← hbits]
+  rw [hbs] at hb
+  obtain ⟨hw', hf'⟩ := (Prod.mk.injEq _ _ _ _).mp hb
+  unfold nWordMax at hw' hf'
+  have hs1 : sign ≤ 1 := by rw [hsign]; split <;> omega
+  have hfeq : f = -(k : ℤ) := by omega
+  have hweq : w = (bits : ℤ) + sign := by omega
+  refine ⟨bits, hfeq, ?_, fM, fm, ?_⟩
+  · rw [hweq]; congr 1; rw [hsign]; split <;> simp
+  · by_cases hz : bits = 0
+    · left; exact hz
+    · right; exact hminbits (bits - 1) (by omega)
+
+example : bestSizes true [1024] none (some (-3)) = (9, -3) := by decide +kernel      -- Fxp(1024, n_frac=-3) is s9/-3 (D49)
+
 /-- if `n_int` is given with one other size, the third follows arithmetically (no search). -/
 theorem infer_nint_arith (sg : Bool) (vals : List ℚ) (wq fq i : ℤ) :
     (inferFmt (some sg) none (some fq) (some i) vals =
